@@ -488,6 +488,7 @@ func runC04(p *core.Program, r *core.Report) {
 		}
 	}
 	reflectPreconditionRule(p, r, regionNames)
+	staleLengthRule(p, r, regionNames)
 	r.Analysed["K1_explicit_panics_in_U"] = nK1
 	r.Analysed["K2_hard_assertions_in_U"] = nK2
 
@@ -702,6 +703,7 @@ func c04Controls() []core.Mutant {
 	return []core.Mutant{
 		{Name: "Parse reports success without looking at the recorded error", File: "parser/parser.go", Old: "\tif p.err != nil {\n\t\treturn nil, p.err.Bind(source)\n\t}\n", New: "", Rule: "R4.5", Construct: "parser.Parse"},
 		{Name: "Optimize ignores the error a fold recorded", File: "optimizer/optimizer.go", Old: "\t\tif fold.err != nil {\n\t\t\treturn fold.err\n\t\t}\n", New: "", Rule: "R4.5", Construct: "optimizer.Optimize"},
+		{Name: "length of the literal taken before the newline normalisation", File: "parser/lexer/utils.go", Old: "\tvalue = newlineNormalizer.Replace(value)\n\tn := len(value)\n", New: "\tn := len(value)\n\tvalue = newlineNormalizer.Replace(value)\n", Rule: "R4.3", Construct: "unescape/no index by a stale length"},
 		{Name: "nil test before the result-kind comparison removed", File: "checker/checker.go", Old: "if t == nil || t.Kind() != v.expect {", New: "if t.Kind() != v.expect {", Rule: "R4.3", Construct: "checker.Check/reflect.Type operations"},
 		{Name: "closure body without static type handed to reflect.FuncOf", File: "checker/checker.go", Old: "\tif t == nil {\n\t\tt = interfaceType // a closure may yield nil\n\t}\n", New: "", Rule: "R4.3", Construct: "ClosureNode/reflect.Type operations"},
 		{Name: "result count no longer tested before Out(0)", File: "checker/checker.go", Old: "\t\t\t\tfn.NumOut() == 1 &&\n", New: "", Rule: "R4.3", Construct: "FunctionNode/reflect.Type operations"},
